@@ -435,6 +435,106 @@ fn replay_round(v: Value) -> CaseResult {
 }
 
 
+
+// --- reset storms: lookups racing with reset() under a long TTL, nothing changes on disk ---------
+
+#[derive(Serialize, Deserialize, Debug, Clone)]
+struct Storm {
+    threads: usize,
+    resets: u32,
+    seed: u64,
+}
+
+fn run_storm(r: &Storm) -> CaseResult {
+    let tree = Arc::new(Tree::new());
+    for i in 0..6 {
+        tree.publish(i, 1);
+    }
+    let db = Arc::new(TimeZoneDatabase::from_dir(&tree.root).map_err(|e| Failure::new("from-dir-err", e.to_string()))?);
+    // long TTLs: after a reset the first refresh re-arms the expiry, the racing lookups must
+    // still see the refreshed index
+    db.__verif_set_ttl(Duration::from_secs(3600), Duration::from_secs(3600));
+    let stop = Arc::new(AtomicBool::new(false));
+    let failure: Arc<std::sync::Mutex<Option<Failure>>> = Arc::new(std::sync::Mutex::new(None));
+    let lookups = Arc::new(AtomicU64::new(0));
+    let mut handles = vec![];
+    for w in 0..r.threads {
+        let (db, stop, failure, lookups) = (db.clone(), stop.clone(), failure.clone(), lookups.clone());
+        let mut sm = SplitMix(r.seed ^ (w as u64 + 1).wrapping_mul(0x9E3779B97F4A7C15));
+        handles.push(std::thread::spawn(move || {
+            while !stop.load(Ordering::Relaxed) {
+                let i = sm.below(6) as usize;
+                let q = variant(NAMES[i], sm.below(4) as u8);
+                let res = crate::engine::guard("storm", || db.get(&q));
+                lookups.fetch_add(1, Ordering::Relaxed);
+                let bad = match res {
+                    Err(f) => Some(Failure::new(format!("concurrent-get/{}", f.sig.rsplit('/').next().unwrap_or("panic")), f.msg)),
+                    Ok(Err(e)) => Some(Failure::new("storm-lookup-fails", format!("get({q:?}) failed while another thread only called reset() (the file never changed): {e}"))),
+                    Ok(Ok(tz)) => {
+                        let (id, ver) = decode(&tz);
+                        if id != i as i32 + 1 || ver != 1 {
+                            Some(Failure::new("storm-wrong-zone", format!("get({q:?}) returned the data of zone #{id} version {ver}")))
+                        } else if tz.iana_name() != Some(NAMES[i]) {
+                            Some(Failure::new("storm-not-canonical", format!("get({q:?}) returned a zone named {:?}", tz.iana_name())))
+                        } else {
+                            None
+                        }
+                    }
+                };
+                if let Some(f) = bad {
+                    let mut g = failure.lock().unwrap();
+                    if g.is_none() {
+                        *g = Some(f);
+                    }
+                    stop.store(true, Ordering::Relaxed);
+                }
+            }
+        }));
+    }
+    for _ in 0..r.resets {
+        if stop.load(Ordering::Relaxed) {
+            break;
+        }
+        db.reset();
+        // a breath between resets so that lookups get through the refresh
+        std::thread::yield_now();
+    }
+    stop.store(true, Ordering::Relaxed);
+    for h in handles {
+        let _ = h.join();
+    }
+    if let Some(f) = failure.lock().unwrap().take() {
+        return Err(f);
+    }
+    if lookups.load(Ordering::Relaxed) == 0 {
+        return Err(Failure::new("HARNESS-PANIC", "no lookup ran during the storm"));
+    }
+    Ok(())
+}
+
+fn run_storms(rec: &Recorder, check: &'static str) {
+    let rounds = rec.tier().pick(24, 600);
+    let mut sm = SplitMix::from(rec.opts.seed, check, 0);
+    let mut n = 0u64;
+    for k in 0..rounds {
+        let r = Storm { threads: [2usize, 4, 8, 16][(k % 4) as usize], resets: 1500, seed: sm.next() };
+        sweep_case(rec, check, &r, || run_storm(&r));
+        n += 1;
+        if rec.violation_count() > 0 {
+            break;
+        }
+    }
+    rec.add_evaluations(n);
+    rec.add_distinct_nontrivial(n);
+    rec.add_class("storm:rounds", n);
+    rec.add_sample(json!({"check": check, "case": {"threads": 8, "resets": 1500, "ttl": "1h", "disk": "unchanged"}}));
+}
+
+fn replay_storm(v: Value) -> CaseResult {
+    let r: Storm = serde_json::from_value(v).map_err(|e| Failure::new("decode", e.to_string()))?;
+    run_storm(&r)
+}
+
 // --- the concatenated (Android tzdata) back-end: histories of lookups, resets, file replacement ---
 
 #[derive(Serialize, Deserialize, Debug, Clone)]
@@ -574,6 +674,7 @@ pub fn property() -> Property {
             Box::new(Prop { name: "c19.history", quick: 30_000, thorough: 1_500_000, strategy: strat_history, test: test_history }),
             Box::new(Prop { name: "c19.concat_history", quick: 20_000, thorough: 1_000_000, strategy: strat_chistory, test: test_chistory }),
             Box::new(Sweep { name: "c19.concurrent", run: run_concurrent, replay: replay_round }),
+            Box::new(Sweep { name: "c19.reset_storm", run: run_storms, replay: replay_storm }),
         ],
         floors: |rec| {
             rec.floor("c19.history:disk-change-then-lookup", "c19.history:cases", 0.40);
